@@ -17,7 +17,7 @@ RULE = ("axis sizes 0..5; start, stop in {None, -7..7}; step in {None, +-1, +-2,
         "model judged it (step 0 and 'no row selected + column out of range' are recorded as unjudged)")
 ASSUMPTIONS = ["Python's built-in list indexing is the specification", "arrays are built over fresh variables; identity (is) of elements is compared"]
 REQUIRED = ["mindex.getitem2d", "mindex.getitem1d", "mindex.flatten", "mindex.reshape", "mindex.model_indexerror", "c13.neg_step_keys",
-            "c13.coordinate_lists", "c13.huge_bounds", "c13.empty_arrays"]
+            "c13.coordinate_lists", "c13.huge_bounds", "c13.empty_arrays", "c13.constructors"]
 
 
 def plan(tier):
@@ -155,10 +155,36 @@ def run(ctx):
         for _ in range(300):
             try_get(ctx, st, a1, slice(rng.choice([None, rng.randint(-n - 3, n + 3)]), rng.choice([None, rng.randint(-n - 3, n + 3)]), rng.choice([None, 1, -1, 2, -3, 7])))
             try_get(ctx, st, a1, rng.randint(-n - 2, n + 1))
+    constructors(ctx, s, rng)
     realistic_stage(ctx, thorough)
     ctx.sample({"shape": [2, 4], "key": ["tuple", 0, ["slice", 10, None, -1]], "list_model": "row 0 reversed"})
     ctx.sample({"shape": [3, 3], "key": ["tuple", ["slice", None, None, -2], -1]})
     mindex.uninstall()
+
+
+def constructors(ctx, s, rng):
+    """The 'equivalent Python list of lists' of an array built from nested lists IS that nested list; of an array built from
+    flat data + shape it is the row-major folding."""
+    for h in range(1, 6):
+        for w in range(0, 6):
+            for kind in ("b", "i"):
+                nested = [[(s.bool_var() if kind == "b" else s.int_var(0, 1)) for _ in range(w)] for _ in range(h)]
+                cls2 = BoolArray2D if kind == "b" else IntArray2D
+                cls1 = BoolArray1D if kind == "b" else IntArray1D
+                flat = [v for r in nested for v in r]
+                for how, arr in (("nested", cls2(nested)), ("nested-tuples", cls2(tuple(tuple(r) for r in nested))),
+                                 ("nested-generators", cls2((x for x in r) for r in nested)), ("flat+shape", cls2(flat, (h, w))),
+                                 ("flat-generator+shape", cls2((x for x in flat), (h, w))), ("reshape", cls1(flat).reshape((h, w)))):
+                    ctx.count("c13.constructors")
+                    ctx.case(["ctor", how, kind, h, w], nontrivial=True)
+                    ok = tuple(arr.shape) == (h, w) and all(arr[y, x] is nested[y][x] for y in range(h) for x in range(w)) \
+                        and [v for v in arr.flatten()] == flat if w > 0 else tuple(arr.shape) == (h, 0)
+                    if not ok:
+                        ctx.violation(f"constructor:{how}", f"array built by {how} from a {h}x{w} nested list does not index like that list",
+                                      {"how": how, "kind": kind, "shape": [h, w]})
+                a1 = cls1(flat)
+                if [a1[i] for i in range(len(flat))] != flat or len(a1) != len(flat):
+                    ctx.violation("constructor:1d", "1D array does not index like the list it was built from", {"kind": kind, "n": len(flat)})
 
 
 def realistic_stage(ctx, thorough):
